@@ -139,6 +139,21 @@ def scratch_dir():
     return tempfile.mkdtemp(prefix='c13-', dir=d)
 
 
+def _io_options(fmt, k, sky):
+    """Serialiser options vary with the operation parameter, so that state
+    kept between calls with DIFFERENT options becomes visible."""
+    if fmt == 'ds9':
+        return {'precision': [8, 3, 8, 5, 8, 2][k % 6]}
+    if fmt == 'crtf':
+        kw = {'coordsys': 'fk5' if sky else 'image',
+              'fmt': ['.6f', '.6f', '.3f', '.6f', '.3f', '.6f'][k % 6]}
+        if sky:
+            kw['radunit'] = ['deg', 'arcmin', 'deg', 'rad', 'arcmin',
+                             'deg'][k % 6]
+        return kw
+    return {}
+
+
 def apply(pool, op):
     """op = [name, *params] with params JSON.  Returns (args, result): the
     live argument objects that must stay untouched and the result object."""
@@ -231,13 +246,7 @@ def apply(pool, op):
                 fmt = 'ds9'
             if op[1] % len(L) == 3 and fmt == 'crtf':
                 fmt = 'ds9'        # (CRTF has no 'dashed' line style)
-            kw = {}
-            if fmt == 'crtf':
-                kw = {'coordsys': 'image' if op[1] % len(L) != 2 else 'fk5'}
-                if op[1] % len(L) != 2:
-                    # (pixel polygons/lines: known CRTF finding, still
-                    # serialisable)
-                    pass
+            kw = _io_options(fmt, op[3], sky=op[1] % len(L) == 2)
             return [lst] + list(lst.regions), lst.serialize(format=fmt, **kw)
         if name == 'serialize_one':
             pools = P + Sk
@@ -245,10 +254,7 @@ def apply(pool, op):
             fmt = ['ds9', 'crtf'][op[2] % 2]
             if type(r).__name__.startswith('EllipseAnnulus'):
                 fmt = 'ds9'          # CRTF has no elliptical annulus
-            kw = {}
-            if fmt == 'crtf':
-                kw = {'coordsys': 'image' if (op[1] % len(pools)) < len(P)
-                      else 'fk5'}
+            kw = _io_options(fmt, op[3], sky=(op[1] % len(pools)) >= len(P))
             return [r], r.serialize(format=fmt, **kw)
         if name == 'parse':
             fmt = ['ds9', 'crtf'][op[1] % 2]
